@@ -548,6 +548,7 @@ type c08h2Scenario struct {
 	respChunks int  // response body chunks
 	respNoBody bool // END_STREAM on the response HEADERS
 	slotWait   bool // MAX_CONCURRENT_STREAMS = 1 and another stream holds the slot
+	slowReader bool // the caller does not read the response body while it arrives: it is buffered, unread
 }
 
 const c08h2Chunk = 1000
@@ -813,6 +814,37 @@ func c08h2Run(sc c08h2Scenario, kind string, stopAt int) (o c08h2Obs, nPoints in
 			}
 			return ""
 		}
+		if sc.slowReader {
+			// the body arrives and stays in the stream's buffer: nobody reads
+			cs := csPtr.Load()
+			if cs == nil {
+				return "stream unknown"
+			}
+			if at("respHdr") {
+				return ""
+			}
+			for j := 0; j < sc.respChunks; j++ {
+				env.data(streamID, c08h2Chunk, false)
+				want := (j + 1) * c08h2Chunk
+				if !c08h2Poll(func() bool { return cs.bufPipe.Len() == want }) {
+					return "response chunk not buffered"
+				}
+				if at(fmt.Sprintf("respBuffered#%d", j)) {
+					return ""
+				}
+			}
+			env.data(streamID, 0, true)
+			add("ev:peerEnd", "settle")
+			select {
+			case <-cs.donec:
+			case <-time.After(c08h2Wait):
+				return "stream not finished"
+			}
+			if at("complete") {
+				return ""
+			}
+			return ""
+		}
 		// the caller reads the body chunk by chunk
 		buf := make([]byte, c08h2Chunk)
 		startRead := func() {
@@ -926,7 +958,10 @@ func c08h2Run(sc c08h2Scenario, kind string, stopAt int) (o c08h2Obs, nPoints in
 	}
 	// the caller drains and closes what it has (the buffered bytes come before the error)
 	if resp != nil && resp.Body != nil {
-		io.Copy(io.Discard, resp.Body)
+		_, derr := io.Copy(io.Discard, resp.Body)
+		if sc.slowReader && derr != nil {
+			o.read = c08h2Class(derr)
+		}
 		resp.Body.Close()
 	}
 	frames, berr := env.barrier()
@@ -987,6 +1022,7 @@ func c08h2Scenarios() []c08h2Scenario {
 		{name: "get-nobody", respNoBody: true},
 		{name: "upload", upChunks: 3, respChunks: 1},
 		{name: "upload-expect", upChunks: 2, expect: true, respChunks: 1},
+		{name: "get-slow-reader", respChunks: 2, slowReader: true},
 		{name: "slotwait-get", slotWait: true, respChunks: 1},
 		{name: "slotwait-upload", slotWait: true, upChunks: 1, respNoBody: true},
 	}
@@ -999,7 +1035,7 @@ func c08h2Scenarios() []c08h2Scenario {
 
 func TestVerif_C08_h2life(t *testing.T) {
 	s := verifh.New(t, "C08", "h2life",
-		"a real ClientConn against a frame-level script peer: scenarios {GET with / without response body, upload (one-chunk flow-control window: a wait per chunk), upload with Expect: 100-continue, waiting for the only MAX_CONCURRENT_STREAMS slot} stepped frame by frame; context.WithCancel / an event-driven deadline injected at EVERY event index (slot wait, HEADERS seen, 100 Continue, each flow-control wait, each DATA seen, END_STREAM seen, response headers returned, each response chunk read, complete); observed: the caller's error / the pending body read's error, RST_STREAM frames and codes at the peer, DATA frames arriving after the injection, Close calls on the request body, in-package the connection's books afterwards (no stream, reservation, pending request or header lock left; connection-level receive window whole after the caller drained and closed the body); the outcome must be one the lifecycle model reaches from the replayed state; non-trivial = injection fired")
+		"a real ClientConn against a frame-level script peer: scenarios {GET with / without response body, upload (one-chunk flow-control window: a wait per chunk), upload with Expect: 100-continue, waiting for the only MAX_CONCURRENT_STREAMS slot} stepped frame by frame; context.WithCancel / an event-driven deadline injected at EVERY event index (slot wait, HEADERS seen, 100 Continue, each flow-control wait, each DATA seen, END_STREAM seen, response headers returned, each response chunk read — or, with a caller that does not read, buffered unread —, complete); observed: the caller's error / the pending body read's error, RST_STREAM frames and codes at the peer, DATA frames arriving after the injection, Close calls on the request body, in-package the connection's books afterwards (no stream, reservation, pending request or header lock left; connection-level receive window whole after the caller drained and closed the body); the outcome must be one the lifecycle model reaches from the replayed state; non-trivial = injection fired")
 	cnt := map[string]int{}
 	count := func(k string) { cnt[k]++; s.Count(k) }
 	for _, sc := range c08h2Scenarios() {
@@ -1068,7 +1104,7 @@ func TestVerif_C08_h2life(t *testing.T) {
 		}
 	}
 	for _, want := range []string{"dry-ok", "point=slotWait", "point=hdrSeen", "point=continued", "point=flowWait", "point=data", "point=endSeen",
-		"point=respHdr", "point=respData", "point=complete", "rst=cancel", "rst=none", "ret=canceled", "ret=deadline", "ret=resp"} {
+		"point=respHdr", "point=respData", "point=respBuffered", "point=complete", "rst=cancel", "rst=none", "ret=canceled", "ret=deadline", "ret=resp"} {
 		if cnt[want] == 0 {
 			t.Errorf("bucket %s not reached", want)
 		}
